@@ -212,7 +212,7 @@ func (e *env) meshTier() {
 			rec := map[string]interface{}{"level": "mesh-dial", "listener_cert": cc.Label, "run": v.String(), "impl_error": fmt.Sprint(derr)}
 			e.im.Hist(fmt.Sprintf("mesh-dial:ok=%v", ok))
 			e.im.Count("mesh-dial "+cc.Label+v.String(), true)
-			mustAccept, mustRefuse, failed := cc.oracle(v)
+			mustAccept, mustRefuse, failed := cc.oracle(v, time.Now().UnixNano())
 			rec["failed_conditions"] = failed
 			if mustRefuse && ok {
 				e.im.Violate(fmt.Sprintf("mesh TLS dial SUCCEEDS although the listener's certificate fails %v (%s)", failed, cc.Label), "mesh-dial-accepts:"+failed[0], rec)
@@ -221,7 +221,7 @@ func (e *env) meshTier() {
 				e.im.Violate(fmt.Sprintf("mesh TLS dial fails although every condition holds: %v (%s)", derr, cc.Label), "mesh-dial-refuses-good", rec)
 			}
 		}
-		e.cf.Add(fmt.Sprintf("TClient %s %s", cc.coqFacts(), CoqList(terms)), "mesh dial, listener certificate: "+cc.Label)
+		e.cf.Add(fmt.Sprintf("TClient %d %s %s", time.Now().UnixNano(), cc.coqFacts(), CoqList(terms)), "mesh dial, listener certificate: "+cc.Label)
 	}
 
 	// (b) mutually authenticated listeners: the client certificate must name the claimed source
@@ -273,7 +273,7 @@ func (e *env) meshTier() {
 				if l.sp.Require {
 					v.HType, v.Expected = htRecv, id
 				}
-				mustAccept, mustRefuse, failed := cc.oracle(v)
+				mustAccept, mustRefuse, failed := cc.oracle(v, time.Now().UnixNano())
 				rec["failed_conditions"] = failed
 				colon := ""
 				if prefix != id {
@@ -289,7 +289,7 @@ func (e *env) meshTier() {
 				}
 				e.im.Sample(rec)
 			}
-			e.cf.Add(fmt.Sprintf("TListen %s %s", cc.coqFacts(), CoqList(terms)), fmt.Sprintf("mesh listener: source %q, client certificate %s", id, cand.what))
+			e.cf.Add(fmt.Sprintf("TListen %d %s %s", time.Now().UnixNano(), cc.coqFacts(), CoqList(terms)), fmt.Sprintf("mesh listener: source %q, client certificate %s", id, cand.what))
 		}
 	}
 	// the listeners are not closed one by one (Listener.Close can block inside the QUIC transport,
